@@ -301,6 +301,40 @@ pub fn obs_annotation(store: &AnnotationStore, h: usize) -> Sx {
     .unwrap_or_else(panic_sx)
 }
 
+fn leaf_key(sel: &Selector) -> Option<Vec<i64>> {
+    Some(match sel {
+        Selector::TextSelector(r, t, m) => vec![0, r.as_usize() as i64, t.as_usize() as i64, mode_nat(m), 0],
+        Selector::AnnotationSelector(x, Some((r, t, m))) => vec![1, r.as_usize() as i64, t.as_usize() as i64, mode_nat(m), x.as_usize() as i64],
+        Selector::AnnotationSelector(x, None) => vec![2, x.as_usize() as i64, 0, 0, 0],
+        Selector::ResourceSelector(r) => vec![3, r.as_usize() as i64, 0, 0, 0],
+        Selector::DataSetSelector(d) => vec![4, d.as_usize() as i64, 0, 0, 0],
+        Selector::DataKeySelector(d, k) => vec![5, d.as_usize() as i64, k.as_usize() as i64, 0, 0],
+        Selector::AnnotationDataSelector(d, x) => vec![6, d.as_usize() as i64, x.as_usize() as i64, 0, 0],
+        Selector::RangedTextSelector { resource, begin, end } => vec![7, resource.as_usize() as i64, begin.as_usize() as i64, end.as_usize() as i64, 0],
+        Selector::RangedAnnotationSelector { begin, end, with_text } => vec![8, begin.as_usize() as i64, end.as_usize() as i64, *with_text as i64, 0],
+        _ => return None,
+    })
+}
+
+/// The stored form of a complex target (the subselector vector with its internal ranged
+/// selectors, as `Annotation::target()` exposes it) and what iterating over it yields, in the
+/// stored order. None for simple targets and empty slots.
+pub fn obs_stored(store: &AnnotationStore, h: usize) -> Option<(Sx, Sx)> {
+    guard(|| {
+        let ann = store.annotation(AnnotationHandle::new(h))?;
+        let target = ann.as_ref().target();
+        let subs = match target {
+            Selector::MultiSelector(v) | Selector::CompositeSelector(v) | Selector::DirectionalSelector(v) => v,
+            _ => return None,
+        };
+        let enc = |v: Vec<Vec<i64>>| l(v.into_iter().map(|k| l(k.into_iter().map(a).collect())).collect());
+        let stored: Vec<Vec<i64>> = subs.iter().map(|s| leaf_key(s).unwrap_or(vec![9, 0, 0, 0, 0])).collect();
+        let expanded: Vec<Vec<i64>> = target.iter(store, false).filter_map(|s| leaf_key(s.as_ref())).collect();
+        Some((enc(stored), enc(expanded)))
+    })
+    .flatten()
+}
+
 pub fn obs_resource(store: &AnnotationStore, h: usize) -> Sx {
     guard(|| {
         let res = match store.resource(TextResourceHandle::new(h)) {
@@ -555,7 +589,28 @@ impl Shadow {
             // complex selectors over text: often consecutive ranges on one resource so that the
             // internal range compression triggers (and just misses)
             let lr = self.live_res();
-            if !lr.is_empty() && rng.chance(1, 2) {
+            let la = self.live_anns();
+            if !la.is_empty() && rng.chance(1, 4) {
+                // consecutive annotations, by handle, without offset or with an offset covering the
+                // whole target (in either alignment) or just not the whole: the internal
+                // RangedAnnotationSelector (with and without text) triggers and just misses
+                let start = *rng.pick(&la);
+                let style = rng.below(4);
+                let mut h = start;
+                for _ in 0..n + 1 {
+                    if !la.contains(&h) {
+                        break;
+                    }
+                    let st = if rng.chance(1, 5) { rng.below(4) } else { style };
+                    v.push(match st {
+                        0 => l(vec![a(1), hnd(h)]),
+                        1 => l(vec![a(2), hnd(h), l(vec![a(0), a(0)]), l(vec![a(1), a(0)])]),
+                        2 => l(vec![a(2), hnd(h), l(vec![a(0), a(0)]), l(vec![a(0), a(1 + rng.below(3) as i64)])]),
+                        _ => l(vec![a(2), hnd(h), l(vec![a(1), a(-(1 + rng.below(2) as i64))]), l(vec![a(1), a(0)])]),
+                    });
+                    h += if rng.chance(1, 6) { 2 } else { 1 };
+                }
+            } else if !lr.is_empty() && rng.chance(1, 2) {
                 let h = *rng.pick(&lr);
                 let len = self.res[h].1;
                 let mut p = 0usize;
